@@ -467,7 +467,7 @@ def rule_R5(ctx, f):
     cands = f.closures_of(cl)
     if not [c2 for c2 in cands if c2.calls_to(["LabelPair::set_name"])]:
         # the pairs may be built once outside the per-family closure (in gather itself or in a helper of the registry)
-        cands = [f.bodies[k_] for k_ in f.order if "::registry::" in f.bodies[k_].path and "{closure" in f.bodies[k_].path and f.bodies[k_].path != cl.path]
+        cands = [bd for bd in f.bodies.values() if "::registry::" in bd.path and "{closure" in bd.path and bd.path != cl.path]
     for c2 in cands:
         sn2 = c2.calls_to(["LabelPair::set_name"])
         sv2 = c2.calls_to(["LabelPair::set_value"])
